@@ -3,6 +3,7 @@ package main
 import (
 	"bytes"
 	"context"
+	"fmt"
 	"os/exec"
 	"strings"
 	"sync"
@@ -24,9 +25,31 @@ func (c *Ctx) runCLI(dir string, stdin string, args ...string) CLIResult {
 }
 
 func (c *Ctx) runCLIEnv(dir string, stdin string, extraEnv []string, timeout time.Duration, args ...string) CLIResult {
+	return c.runBinEnv(c.Bin, dir, stdin, extraEnv, timeout, args...)
+}
+
+// runBinEnv executes a given copy/build of the binary under test.
+func (c *Ctx) runBinEnv(bin, dir string, stdin string, extraEnv []string, timeout time.Duration, args ...string) CLIResult {
+	var r CLIResult
+	for try := 0; try < 8; try++ {
+		r = c.runBinOnce(bin, dir, stdin, extraEnv, timeout, args...)
+		// ETXTBSY: the freshly written executable is still open in a concurrently forked child
+		if r.Exit == -2 && strings.Contains(r.Stderr, "text file busy") {
+			time.Sleep(time.Duration(20*(try+1)) * time.Millisecond)
+			continue
+		}
+		break
+	}
+	if r.Exit == -2 {
+		c.infra(fmt.Errorf("cannot execute %s: %s", bin, r.Stderr))
+	}
+	return r
+}
+
+func (c *Ctx) runBinOnce(bin, dir string, stdin string, extraEnv []string, timeout time.Duration, args ...string) CLIResult {
 	ctx, cancel := context.WithTimeout(context.Background(), timeout)
 	defer cancel()
-	cmd := exec.CommandContext(ctx, c.Bin, args...)
+	cmd := exec.CommandContext(ctx, bin, args...)
 	cmd.Dir = dir
 	cmd.Env = append([]string{"CI=true", "HOME=" + c.Scratch, "PATH=/usr/bin:/bin", "NO_COLOR=1"}, extraEnv...)
 	cmd.Stdin = strings.NewReader(stdin)
